@@ -19,11 +19,16 @@ macro_rules! props {
     };
 }
 
+pub mod common;
+
 props! {
     "C01" => c01,
+    "C02" => c02,
+    "C03" => c03,
     "C04" => c04,
     "C08" => c08,
     "C10" => c10,
+    "C11" => c11,
 }
 
 pub fn iso_space(_prop: &str, _mode: &str, _tier: Tier) -> Option<Box<dyn IsoSpace>> {
